@@ -731,12 +731,19 @@ def _run_partials(case, acc):
             if pt == 2:
                 # (after all judgements: compute_totals narrows the relevant sub-jacobians)
                 before = _snap(prob.model)
+                import signal
+                left = signal.alarm(30)      # (deeply nested iterative linear solvers can take minutes here)
                 try:
-                    prob.compute_totals(of=[G.top_name(spec, o) for o in spec['of']],
-                                        wrt=[G.top_name(spec, w) for w in spec['wrt']])
+                    try:
+                        prob.compute_totals(of=[G.top_name(spec, o) for o in spec['of']],
+                                            wrt=[G.top_name(spec, w) for w in spec['wrt']])
+                    finally:
+                        signal.alarm(max(1, left - 30) if left else 0)
                     acc.count('obs:restore-around-compute_totals')
                     first = _restore_viols(acc, _cmp_snap(acc, before, _snap(prob.model)), K, 'compute_totals',
                                            case, first)
+                except _Deadline:
+                    acc.count('skip-obs:compute_totals-deadline')
                 except Exception as e:
                     _exc(acc, K, 'compute_totals', e, case, first)
                     first = False
